@@ -183,12 +183,12 @@ def candidate_near(rng, v):
     c = {"epoch": v["epoch"], "release": list(v["release"]), "pre": v["pre"], "post": v["post"], "dev": v["dev"],
          "local": (list(v["local"]) if v["local"] is not None else None)}
     r = c["release"]
-    k = rng.randrange(10)
+    k = rng.randrange(13)
     if k == 1:
         c["release"] = r + [0] * rng.choice([1, 1, 2])
     elif k == 2:
         c["release"] = GV._strip0(r) or [0]
-    elif k == 3:
+    elif k in (3, 10):
         c["release"] = r[: rng.randrange(1, len(r) + 1)]
     elif k == 4:
         c["release"] = r + [comp(rng) for _ in range(rng.choice([1, 1, 2]))]
@@ -199,8 +199,12 @@ def candidate_near(rng, v):
     elif k == 7:
         i = rng.randrange(len(r))
         c["release"] = r[:i] + [max(0, r[i] + rng.choice([-1, 1]))] + r[i + 1:]
-    elif k == 8:
+    elif k in (8, 11):
         c["release"] = r[: rng.randrange(1, len(r) + 1)] + [0] * rng.choice([0, 1, 2])
+    elif k == 12:
+        # the shortest release with the same meaning as a prefix of V's (padding must supply the zeros)
+        j = rng.randrange(1, len(r) + 1)
+        c["release"] = GV._strip0(r[:j]) or [0]
     elif k == 9 and rng.random() < 0.5:
         c["epoch"] = max(0, c["epoch"] + rng.choice([-1, 1]))
     # suffixes: keep V's, drop them, nudge a number, or draw a fresh shape
@@ -221,14 +225,17 @@ def candidate_near(rng, v):
         suffixes(rng, c)
     # local label: none / V's own / a different one
     s = rng.random()
-    if s < 0.45:
-        c["local"] = None
-    elif s < 0.60 and v["local"] is not None:
-        pass
-    elif s < 0.70 and v["local"] is not None:
-        c["local"] = list(v["local"]) + [rng.choice(GV.SMALL)] if rng.random() < 0.5 else local(rng)
+    if v["local"] is not None:
+        if s < 0.40:
+            pass
+        elif s < 0.60:
+            c["local"] = None
+        elif s < 0.75:
+            c["local"] = list(v["local"]) + [rng.choice(GV.SMALL)]
+        else:
+            c["local"] = local(rng)
     else:
-        c["local"] = local(rng)
+        c["local"] = None if s < 0.5 else local(rng)
     return c
 
 
